@@ -68,8 +68,67 @@ def _worker(item, conn):
         conn.close()
 
 
-def run_tasks(items, timeout_ms, jobs=16, task_wall_s=600):
-    """one process per task (a crashing or hanging task cannot take the others down)"""
+def tree_hash():
+    """content hash of everything a task result depends on: the repository sources under verification,
+    the engine and the contracts"""
+    import hashlib
+
+    h = hashlib.sha256()
+    repo = os.environ.get("HEXITAL_REPO", "/repo")
+    roots = [os.path.join(repo, "hexital"), os.path.join(ROOT, "hexvc"), os.path.join(ROOT, "contracts"), os.path.join(ROOT, "registry.py")]
+    for root in roots:
+        if os.path.isfile(root):
+            h.update(open(root, "rb").read())
+            continue
+        for dp, dn, fn in sorted(os.walk(root)):
+            dn.sort()
+            for f in sorted(fn):
+                if f.endswith(".py"):
+                    path = os.path.join(dp, f)
+                    h.update(path.encode())
+                    h.update(open(path, "rb").read())
+    return h.hexdigest()[:20]
+
+
+def run_tasks(items, timeout_ms, jobs=12, task_wall_s=900):
+    """one process per task (a crashing or hanging task cannot take the others down).  Task results are
+    cached by content hash of (repository sources, engine, contracts, solver budget): the twenty property
+    checks share most of their cones, and nothing is reused across different trees."""
+    if not items:
+        return []
+    cache_dir = os.path.join(ROOT, ".cache", f"{tree_hash()}-{timeout_ms}")
+    os.makedirs(cache_dir, exist_ok=True)
+
+    def cpath(key):
+        import hashlib
+        return os.path.join(cache_dir, hashlib.sha1(key.encode()).hexdigest()[:16] + ".json")
+
+    cached = {}
+    todo = []
+    for k, key in items:
+        pth = cpath(key)
+        if os.path.exists(pth) and not os.environ.get("HEXVC_NOCACHE"):
+            try:
+                cached[key] = json.load(open(pth))
+                cached[key]["cached"] = True
+                continue
+            except Exception:
+                pass
+        todo.append((k, key))
+    fresh = _run_tasks_uncached(todo, timeout_ms, jobs, task_wall_s) if todo else []
+    for r in fresh:
+        decided = not str(r.get("out_of_reach") or "").startswith("engine-error: worker")
+        if decided:
+            try:
+                json.dump(r, open(cpath(r["task"]), "w"))
+            except Exception:
+                pass
+    by = {r["task"]: r for r in fresh}
+    by.update(cached)
+    return [by[key] for _, key in items]
+
+
+def _run_tasks_uncached(items, timeout_ms, jobs=12, task_wall_s=900):
     if not items:
         return []
     ctxm = mp.get_context("fork")
